@@ -9,9 +9,9 @@ TB = ("Trusted base: Lean 4.33 kernel; axioms audited per theorem on every run (
 
 CHECKS = {
  "C01": dict(
-  text="Theorems (CmProps/C01.lean) prove, for every numeric carrier, every leaf oracle and every descent function, that each strategy and check_and_fix_contrast report exactly the verdict 'contrast(returned colour, bg) >= table minimum' on every exit path, and that the table is 4.5/3.0/7.0/4.5. The executable model (Float instance, library leaves) is tied to /repo on every run by whole-pipeline comparison with check_and_fix_contrast (bit-exact results expected) on structured pairs; the API layer (spellings, formatting, read-back by an independent CSS reader) is checked against a 60-digit WCAG reference.",
+  text="Theorems (CmProps/C01.lean) prove, for every numeric carrier, every leaf oracle and every descent function, that each strategy and check_and_fix_contrast report exactly the verdict 'contrast(returned colour, bg) >= table minimum' on every exit path, and that the table is 4.5/3.0/7.0/4.5. The executable model (Float instance, library leaves) is tied to /repo on every run by whole-pipeline comparison with check_and_fix_contrast (bit-exact results expected) on structured pairs; the API layer (spellings, formatting, read-back by an independent CSS reader) is checked against a 60-digit WCAG reference. The threshold table of check_and_fix_contrast is additionally translated from the source's syntax tree on every run (harness/translate/leaves.py -> CmGen/Leaves.lean) and CmProps/C01tie.lean proves it equal to the model's table.",
   note=TB + "modelled not verified: formatting/re-parsing of the result (covered by C06's theorems and sweeps), tinycss2.color3 as the CSS consumer.",
-  tech="Lean 4 proof over abstract oracles + differential correspondence (model vs implementation)", ref="6 C01"),
+  tech="Lean 4 proof over abstract oracles + differential correspondence (model vs implementation) + source-to-Lean translation of the numeric leaves/constants, proved equal to the model", ref="6 C01"),
  "C02": dict(
   text="Theorems (CmProps/C02.lean): already-passing pairs are returned unchanged with success (no law needed); generate_accessible_color, all three strategies and check_and_fix_contrast never return a colour of lower contrast, for every ordered carrier, oracle, schedule, mode and setting (invariant of the schedule loop, induction over the step chains). Tie: the same whole-pipeline correspondence as C01 plus API-level evaluation with all spellings against the decimal WCAG reference.",
   note=TB + "the order laws are hypotheses of the monotonicity theorems (hold for non-NaN doubles).",
@@ -21,17 +21,17 @@ CHECKS = {
   note=TB + "PARTIAL: completeness rests on BandHyp (numeric facts about OKLCH/CIEDE2000/WCAG along the lightness line), which is evaluated by observation per input, not proved.",
   tech="Lean 4 proof (loop invariant, completeness relative to explicit leaf hypotheses) + witness scan and differential correspondence", ref="6 C03"),
  "C04": dict(
-  text="Theorems (CmProps/C04.lean): lightness search and descent return None or a valid colour within their tolerance; the multi-phase search returns its input or a valid colour within one entry of ANY schedule (empty schedule: input); mode 0 stays within 5.0 (every default-schedule entry <= 5.0 by decide + literal monotonicity); mode 1 is a chain of <= 10 steps of <= 3.0 and mode 2 that, or <= 15 such steps, or one step <= 15.0 (inductive Chain predicate). Tie: routine-level and whole-pipeline correspondence (bit-exact), direct calls with arbitrary schedules, and observation of every multi-phase call inside mode 1/2 runs.",
+  text="Theorems (CmProps/C04.lean): lightness search and descent return None or a valid colour within their tolerance; the multi-phase search returns its input or a valid colour within one entry of ANY schedule (empty schedule: input); mode 0 stays within 5.0 (every default-schedule entry <= 5.0 by decide + literal monotonicity); mode 1 is a chain of <= 10 steps of <= 3.0 and mode 2 that, or <= 15 such steps, or one step <= 15.0 (inductive Chain predicate). Tie: routine-level and whole-pipeline correspondence (bit-exact), direct calls with arbitrary schedules, and observation of every multi-phase call inside mode 1/2 runs. The four tolerance lists and the four loop bounds (10/15/20/50) of optimisation.py are read from the source's syntax tree on every run (CmGen/Leaves.lean); CmProps/C04tie.lean proves them equal to the model's and re-derives the <= 5.0 / 3.0 / 15.0 bounds for the lists as the code contains them now.",
   note=TB + "deltaE(t,t)=0 is a property of the leaf (C11), so the theorems say 'the input itself or within the bound'.",
-  tech="Lean 4 proof (Hoare-style stage specs, induction) + differential correspondence", ref="6 C04"),
+  tech="Lean 4 proof (Hoare-style stage specs, induction) + differential correspondence + source-to-Lean translation of the numeric leaves/constants, proved equal to the model", ref="6 C04"),
  "C16": dict(
   text="Theorems (CmProps/C16.lean): (a) mode 2 returns mode 1's result whenever mode 1 succeeds (definitional, lifted to check_and_fix_contrast); (b) simulation: with the same target and schedule a weaker minimum can only stop earlier on a passing colour (gen_weaker_min), lifted through all three strategies to 'very_readable succeeds => ordinary succeeds' for every mode, using target_same and min_le from the threshold table. Tie: whole-pipeline correspondence + implementation-vs-implementation comparison through the public API.",
   note=TB + "order laws as hypotheses.",
   tech="Lean 4 proof (simulation between two runs) + differential correspondence", ref="6 C16"),
  "C05": dict(
-  text="Theorems about the model at the real-number carrier (CmProps/C05.lean, C05cert.lean): luminance in [0,1], 0 only for black and 1 only for white, strictly monotone per channel; ratio symmetric, in [1,21], 1 on equal colours, 21 exactly for black/white; 0.03928 vs 0.04045 immaterial on 8-bit values; level_iff (inclusive thresholds); and a certified executable verdict: a 256-entry rational enclosure table of the linearisation proved sound via lo^5 <= x^12 <= hi^5 (decide +kernel) and certVerdict_sound over the reals. The same generic definitions run at Float in the driver and are compared bit-for-bit with the code (exhaustively on all 2^24 colours in the thorough tier), and with a 60-digit decimal reference typed from WCAG 2.",
+  text="Theorems about the model at the real-number carrier (CmProps/C05.lean, C05cert.lean): luminance in [0,1], 0 only for black and 1 only for white, strictly monotone per channel; ratio symmetric, in [1,21], 1 on equal colours, 21 exactly for black/white; 0.03928 vs 0.04045 immaterial on 8-bit values; level_iff (inclusive thresholds); and a certified executable verdict: a 256-entry rational enclosure table of the linearisation proved sound via lo^5 <= x^12 <= hi^5 (decide +kernel) and certVerdict_sound over the reals. The same generic definitions run at Float in the driver and are compared bit-for-bit with the code (exhaustively on all 2^24 colours in the thorough tier), and with a 60-digit decimal reference typed from WCAG 2. Static tie: srgb_to_linear, calculate_relative_luminance, calculate_contrast_ratio, get_contrast_level and get_wcag_level are translated mechanically from the source's syntax tree on every run (CmGen/Leaves.lean) and CmProps/C05tie.lean proves each image equal to the model definition the theorems are about, for every carrier (rfl).",
   note=TB + "modelled not verified: IEEE rounding inside pow (bounded by the certified enclosures only for threshold verdicts).",
-  tech="Lean 4 proof over the reals + certified rational enclosures + exhaustive differential correspondence", ref="6 C05"),
+  tech="Lean 4 proof over the reals + certified rational enclosures + exhaustive differential correspondence + source-to-Lean translation of the numeric leaves/constants, proved equal to the model", ref="6 C05"),
  "C06": dict(
   text="Theorems (CmProps/C06*.lean): the output-format table of format_color, and (as they are merged) the exact round trips of hex / rgb() / tuple output through the modelled parser for all 2^24 colours and of HSL over exact rational arithmetic. Tie: format_color -> parse_color_to_rgb and -> tinycss2.color3 on every colour x {hex, rgb(), hsl(), tuple} (exhaustive in the thorough tier), compared with the model's formatter/reader; format mapping through make_readable for every input spelling x outcome, compared with the model's makeReadable.",
   note=TB + "repr(float)/float(str) are exact inverses (decimal text of the HSL numbers is not modelled); double rounding inside rgb_to_hsl/hsl_to_rgb is decided by the exhaustive sweep, not by theorem.",
@@ -41,13 +41,13 @@ CHECKS = {
   note=TB + "Unicode classes (isspace, decimal digits, lower) are an oracle parameter of the model; the harness ships the classes of non-ASCII characters with each input. Plain decimal notation only.",
   tech="translator-regenerated table + Lean 4 proof over exact rationals + differential correspondence", ref="6 C07"),
  "C10": dict(
-  text="Theorems at the real carrier (CmProps/C10.lean): L in [0,1], C >= 0, H in [0,360) (from Complex.arg); for ANY carrier: every triple converts to a valid 8-bit colour, the safe variants equal the plain ones on valid input; inverse-matrix rows sum to 1 hence C = 0 gives a grey, L=0 black, L=1 white. The exact agreement of doubles with the definition and the lossless round trip are decided by correspondence: forward conversion, ranges and round trip on all 2^24 colours in the thorough tier (bit-identical to the Float model), inverse on a dense grid incl. out-of-gamut, invalid input for the safe variants, independent transcription of Ottosson's definition and published sample values.",
+  text="Theorems at the real carrier (CmProps/C10.lean): L in [0,1], C >= 0, H in [0,360) (from Complex.arg); for ANY carrier: every triple converts to a valid 8-bit colour, the safe variants equal the plain ones on valid input; inverse-matrix rows sum to 1 hence C = 0 gives a grey, L=0 black, L=1 white. The exact agreement of doubles with the definition and the lossless round trip are decided by correspondence: forward conversion, ranges and round trip on all 2^24 colours in the thorough tier (bit-identical to the Float model), inverse on a dense grid incl. out-of-gamut, invalid input for the safe variants, independent transcription of Ottosson's definition and published sample values. Static tie: rgb_to_oklch, oklch_to_rgb, calculate_hue_angle, is_valid_oklch, linear_to_srgb and the nested safe_cbrt/safe_cube are translated from the source's syntax tree on every run and proved equal to the model's definitions (CmProps/C10tie.lean).",
   note=TB + "losslessness on all 2^24 colours is an exhaustive correspondence run, labelled as such, not a theorem (native_decide deliberately not used).",
-  tech="Lean 4 proof over the reals / any carrier + exhaustive differential correspondence", ref="6 C10"),
+  tech="Lean 4 proof over the reals / any carrier + exhaustive differential correspondence + source-to-Lean translation of the numeric leaves/constants, proved equal to the model", ref="6 C10"),
  "C11": dict(
-  text="Theorems at the real carrier (CmProps/C11.lean): CIEDE2000 is symmetric, non-negative, zero on identical colours, its radicand is non-negative (|R_T| <= 2), every divisor is >= 1 or > 0 and every square-root argument non-negative (the real-number content of 'never raises'), L* in [0,100]. Agreement with the CIE definitions to 0.05 is numeric: Lab on all 2^24 colours (thorough) and dE on random / unit-step / near-neutral / hue-wrap pairs are bit-identical to the Float model, which reproduces the 34 published Sharma-Wu-Dalal pairs; the pairs are also fed through the implementation; an independent transcription with CIE's exact constants agrees within 3e-4.",
+  text="Theorems at the real carrier (CmProps/C11.lean): CIEDE2000 is symmetric, non-negative, zero on identical colours, its radicand is non-negative (|R_T| <= 2), every divisor is >= 1 or > 0 and every square-root argument non-negative (the real-number content of 'never raises'), L* in [0,100]. Agreement with the CIE definitions to 0.05 is numeric: Lab on all 2^24 colours (thorough) and dE on random / unit-step / near-neutral / hue-wrap pairs are bit-identical to the Float model, which reproduces the 34 published Sharma-Wu-Dalal pairs; the pairs are also fed through the implementation; an independent transcription with CIE's exact constants agrees within 3e-4. Static tie: rgb_to_xyz, xyz_to_lab (with lab_transform), rgb_to_lab and all of calculate_delta_e_2000 are translated from the source's syntax tree on every run and proved equal to the model's definitions (CmProps/C11tie.lean).",
   note=TB + "agreement to 0.05 is decided by sweeps against independent references, not by theorem.",
-  tech="Lean 4 proof over the reals + published test data + differential correspondence", ref="6 C11"),
+  tech="Lean 4 proof over the reals + published test data + differential correspondence + source-to-Lean translation of the numeric leaves/constants, proved equal to the model", ref="6 C11"),
  "C12": dict(
   text="Theorems (CmProps/C12.lean): the bulk loop (modelled as the accumulator fold it is) equals map entry, hence one result per entry in order, position independence (bulk_get), bulk_append, bulk_perm; invalid entries come back unchanged with 'invalid color', which is none of the readability strings; a valid entry carries exactly make_readable's colour. Tie: bulk vs per-entry ColorPair calls on generated lists (empty, duplicates, permutations, invalid entries, mixed arities, all spellings) x mode x very_readable, status vs the WCAG label of the returned colour (60-digit reference), and vs the model's fold.",
   note=TB + "the status clause relies on the returned colour being re-readable (C06).",
